@@ -36,7 +36,8 @@ def check(model: Model, rep: Report, tier: str):
     with rep.isolated():
         cg = CallGraph(model)
         share_rule(rep, model, lambda m, r: h5(m, r, cg), "C04.D6", "the start of what follows a block is memoised per link: the memo key separates links to different blocks, "
-                   "so a follower never receives the end of another block (= C03.H5)")
+                   "so a follower never receives the end of another block (= C03.H5)",
+                   keep=lambda o: "/structure/" in o["loc"] or "/language/" in o["loc"])
 
 
 def front_rule(model: Model, rep: Report):
